@@ -277,3 +277,63 @@ def convolve_function():
         if re.search(r"(?<![A-Za-z0-9_])" + re.escape(bad), body.replace("vp_this_", "")): raise ExtractionError("convolve(): unhandled C++ construct '%s' left after the rewrite rules" % bad)
     hdr = "void convolve(const uint32_t dim, const double* conv_knots, size_t n_conv_knots)"
     return Extracted("convolve", hdr, body, r, CONVOLVE_H, X.find_loops(body))
+
+# ---------------------------------------------------------------------------
+# splinetable::fit (fit.h): whole-function extraction for exact execution with the C fitter hooked (C13, C++ half)
+FIT_H = "include/photospline/detail/fit.h"
+FIT_PRELUDE = r'''
+#include <stdint.h>
+#include <stddef.h>
+#include <stdbool.h>
+typedef double* double_ptr;
+typedef long cholmod_common; typedef long cholmod_sparse;     /* opaque here: only passed through */
+#define CHOLMOD_REAL 1
+#define no_monodim ((uint32_t)-1)
+/* members (R1); the parameter `knots` shadows the member, `this->knots` becomes vp_this_knots (R14) */
+uint32_t ndim; uint32_t* order; double** vp_this_knots; uint64_t* nknots; double** extents; uint64_t* naxes; uint64_t* strides; float* coefficients;
+int vp_thrown;                                     /* ghost: an exception has been thrown (R7) */
+long vp_data_ptr;                                  /* stands for &data */
+void* vp_new(size_t elsize, size_t n); void* vp_allocate(size_t elsize, size_t n);
+void  vp_copy(const void* first, const void* last, void* out);
+bool  vp_is_sorted(const double* first, const double* last);
+unsigned vp_max_element_u(const unsigned* first, const unsigned* last);
+int cholmod_l_start(cholmod_common* c); int cholmod_l_finish(cholmod_common* c);
+cholmod_sparse* cholmod_l_spzeros(size_t nrow, size_t ncol, size_t nzmax, int xtype, cholmod_common* c);
+int cholmod_l_free_sparse(cholmod_sparse** A, cholmod_common* c);
+cholmod_sparse* add_penalty_term(uint64_t* nsplines, double* knots, uint32_t ndim, uint32_t dim, uint32_t order, uint32_t porder, double scale, int mono, cholmod_sparse* penalty, cholmod_common* c);
+int glamfit_complex(const long* data, const double* weights, const double* const* coords, uint32_t ndim, const uint64_t* nknots, const double* const* knots, const uint64_t* naxes,
+                    float* out_coefficients, const uint32_t* order, cholmod_sparse* penalty, uint32_t monodim, int verbose, cholmod_common* c);
+'''
+FIT_HEADER = ("void fit(size_t data_rows, size_t data_ndim, unsigned** data_i, unsigned* data_ranges, "
+              "const double* weights, size_t weights_size, const double* const* coords, size_t coords_size, const size_t* coords_sizes, "
+              "const uint32_t* splineOrder, size_t splineOrder_size, const double* const* knots, size_t knots_size, const size_t* knots_sizes, "
+              "const double* smoothing, size_t smoothing_size, const uint32_t* penaltyOrder, size_t penaltyOrder_size, uint32_t monodim, bool verbose)")
+
+def fit_function():
+    s = src(FIT_H)
+    start, header, body, end = X.find_function(s, r"splinetable<Alloc>::fit\s*\(")
+    r = X.Rules(); r.counts["R1_member"] = 1
+    body = X.strip_comments(body)
+    body = r.sub("R19_static_assert", r"static_assert\(.*?\"\s*\);", "", body, flags=re.S)
+    body = r.sub("R7_throw", r"throw\s+std::(?:logic_error|runtime_error)\(.*?\);", "{ vp_thrown = 1; return; }", body, must_fire=True, flags=re.S)
+    body = r.sub("R14_this", r"this->knots", "vp_this_knots", body, must_fire=True)
+    body = r.sub("R18_data_address", r"&data\b", "&vp_data_ptr", body, must_fire=True)
+    body = r.sub("R18_data_member", r"\bdata\.(\w+)", r"data_\1", body, must_fire=True)
+    body = r.sub("R18_inner_size", r"\bknots\[(\w+)\]\.size\(\)", r"knots_sizes[\1]", body, must_fire=True)
+    body = r.sub("R18_inner_size_coords", r"\bcoords\[(\w+)\]\.size\(\)", r"coords_sizes[\1]", body)
+    body = r.sub("R18_inner_begin", r"\bknots\[(\w+)\]\.begin\(\)", r"knots[\1]", body, must_fire=True)
+    body = r.sub("R18_inner_end", r"\bknots\[(\w+)\]\.end\(\)", r"(knots[\1] + knots_sizes[\1])", body, must_fire=True)
+    body = r.sub("R18_inner_data", r"\bcoords\[(\w+)\]\.data\(\)", r"coords[\1]", body, must_fire=True)
+    body = r.sub("R18_size", r"\b(weights|coords|splineOrder|knots|smoothing|penaltyOrder)\.size\(\)", r"\1_size", body, must_fire=True)
+    body = r.sub("R18_data", r"\bweights\.data\(\)", "weights", body, must_fire=True)
+    body = r.sub("R18_begin_end", r"\bsplineOrder\.begin\(\),\s*splineOrder\.end\(\)", "splineOrder, splineOrder + splineOrder_size", body, must_fire=True)
+    body = r.sub("R16_is_sorted", r"std::is_sorted\(", "vp_is_sorted(", body, must_fire=True)
+    body = r.sub("R6_max_element", r"\*std::max_element\(", "vp_max_element_u(", body, must_fire=True)
+    body = r.sub("R16_copy", r"std::copy\(", "vp_copy(", body, must_fire=True)
+    body = r.sub("R15_unique_ptr_array", r"std::unique_ptr<([\w \*]+?)\[\]>\s+(\w+)\(new \1\[(.*?)\]\);", r"\1* \2 = (\1*)vp_new(sizeof(\1), \3);", body, must_fire=True)
+    body = r.sub("R15_get", r"\.get\(\)", "", body, must_fire=True)
+    body = r.sub("R17_allocate", r"allocate<([\w]+)>\((.*?)\)(\s*[;+])", r"((\1*)vp_allocate(sizeof(\1), \2))\3", body, must_fire=True)
+    body = r.sub("R10_initializer", r"\(monodim==no_monodim\?-1:\(int\)monodim\)", "(monodim==no_monodim?(uint32_t)-1:(uint32_t)(int)monodim)", body)
+    for bad in ("std::", "this->", "unique_ptr", "allocate<", ".size()", ".begin()", ".data()"):
+        if bad in body: raise ExtractionError("fit(): unhandled C++ construct '%s' left after the rewrite rules" % bad)
+    return Extracted("fit", FIT_HEADER, body, r, FIT_H, X.find_loops(body))
